@@ -6,7 +6,8 @@ pandas (CSV text, dtype inference, NaN handling, date parsing, float formatting)
 opaque layer: a table here is a list of rows, a row a dict column → entry, an entry `MVal`
 (`none` = NaN / empty, `num`, `str`, `date`). What is modelled is which rows are written for a
 triangle and how rows are grouped back into cells — in particular the GROUP-BY KEY LIST, which is
-not written here but read from `Bermuda.Generated.Frame.groupByKeys` (regenerated from /repo on
+not written here but read from `Bermuda.Generated.FrameKeys.groupByKeys` (OBSERVED on probe frames:
+harness/translate_c14.py wraps `DataFrame.groupby` and records the `by` lists; regenerated from /repo on
 every run).
 
 Numbers come back from a CSV as floats; kinds are not tracked on the way back (`Val.flt`, arrays
@@ -16,6 +17,7 @@ Core Lean only.
 import Bermuda.Model.Ops
 import Bermuda.Model.DateUtils
 import Bermuda.Generated.Frame
+import Bermuda.Generated.FrameKeys
 namespace Bermuda.Frame
 open Bermuda
 
@@ -208,7 +210,7 @@ def expandKey (detailCols lossDetailCols : List String) (k : String) : List Stri
   else [k]
 
 def groupCols (fn : String) (detailCols lossDetailCols : List String) : List String :=
-  match Generated.Frame.groupByKeys.find? (·.1 == fn) with
+  match Generated.FrameKeys.groupByKeys.find? (·.1 == fn) with
   | none => []
   | some (_, ks) => ks.flatMap (expandKey detailCols lossDetailCols)
 
